@@ -5,7 +5,7 @@ ids="$@"; [ -z "$ids" ] && ids=$(ls seeded)
 for id in $ids; do
   prop=$(/venv/bin/python -c "import json;print(json.load(open('seeded/$id/meta.json'))['property'])")
   if ! git -C /repo diff --quiet; then echo "repo dirty"; exit 9; fi
-  if ! git -C /repo apply seeded/$id/patch.diff 2>/dev/null; then echo "$id: patch does not apply"; continue; fi
+  if ! git -C /repo apply /verif/seeded/$id/patch.diff 2>/dev/null; then echo "$id: patch does not apply"; continue; fi
   out=$(timeout 2400 ./check $prop --tier quick 2>&1); rc=$?
   git -C /repo checkout -- .
   first=$(echo "$out" | grep "^VIOLATION" | head -3 | sed 's/replay=[^ ]* //' | cut -c1-220)
